@@ -13,7 +13,9 @@ scope that is popped twice or not at all on some way out shows in the code that 
 from gen import nesting
 from vlib import core, progstream, known
 
-MODULES = ["HmsProofs.C11"]
+# C01VM §10/§14: the VM follows the specification through loop/while with break/continue and through throw / try / catch
+# across activations (proved simulation on the fragment); audited here too
+MODULES = ["HmsProofs.C11", "HmsProofs.C01VM"]
 
 
 def judge(ctx, cases, label):
